@@ -143,6 +143,9 @@ func (g *cgen) generate() *ConcProgram {
 	if g.chance("captureassignshape", 10) {
 		return g.captureAssignFrontier()
 	}
+	if g.chance("returninloopshape", 8) {
+		return g.returnInGoroutineLoopFrontier()
+	}
 	independent := g.chance("independent", 55)
 	nthreads := 1 + g.pick("nthreads", 3)
 	useMachine := false
@@ -420,6 +423,49 @@ func (g *cgen) captureAssignFrontier() *ConcProgram {
 		body("\t")
 		w("\treturn *got, limit\n}\n")
 	}
+	var feats []string
+	for f := range g.feats {
+		feats = append(feats, f)
+	}
+	return &ConcProgram{Src: "package main\n\nimport (\n\t\"sync\"\n)\n\n" + b.String(), Independent: true, Features: feats, Threads: 2, MayReject: true}
+}
+
+// returnInGoroutineLoopFrontier: a goroutine whose body contains loops and leaves them with a bare
+// `return` (possibly from a nested loop) after publishing a result under the mutex. goose rejects a
+// return inside a loop today; a change that starts accepting it must end the whole thread there,
+// not only the innermost loop (seeded change C03-6). Rejection is fine (MayReject); the result does
+// not depend on the schedule.
+func (g *cgen) returnInGoroutineLoopFrontier() *ConcProgram {
+	g.feat("return-inside-goroutine-loop")
+	var b strings.Builder
+	w := func(format string, a ...any) { fmt.Fprintf(&b, format, a...) }
+	n := 3 + g.pick("rgn", 2)
+	thr := 2 + g.pick("rgthr", 5)
+	nested := g.chance("rgnested", 70)
+	w("func entry0() (uint64, uint64) {\n")
+	w("\tmu := new(sync.Mutex)\n\twg := new(sync.WaitGroup)\n\tvar found uint64\n\tvar visits uint64\n\twg.Add(1)\n")
+	w("\tgo func() {\n")
+	if nested {
+		g.feat("return-from-nested-loop")
+		w("\t\tfor i := uint64(0); i < %d; i++ {\n\t\t\tfor j := uint64(0); j < %d; j++ {\n", n, n)
+		w("\t\t\t\tmu.Lock()\n\t\t\t\tvisits = visits + 1\n\t\t\t\tmu.Unlock()\n")
+		w("\t\t\t\tif i*%d+j >= %d {\n\t\t\t\t\tmu.Lock()\n\t\t\t\t\tfound = i*10 + j\n\t\t\t\t\tmu.Unlock()\n\t\t\t\t\twg.Done()\n\t\t\t\t\treturn\n\t\t\t\t}\n", n, thr)
+		w("\t\t\t}\n\t\t}\n")
+	} else {
+		w("\t\tfor i := uint64(0); i < %d; i++ {\n", n*n)
+		w("\t\t\tmu.Lock()\n\t\t\tvisits = visits + 1\n\t\t\tmu.Unlock()\n")
+		w("\t\t\tif i >= %d {\n\t\t\t\tmu.Lock()\n\t\t\t\tfound = i + 100\n\t\t\t\tmu.Unlock()\n\t\t\t\twg.Done()\n\t\t\t\treturn\n\t\t\t}\n", thr)
+		w("\t\t}\n")
+	}
+	if g.chance("rgtailloop", 65) {
+		// the loop is the goroutine's last statement: the return inside it is the only way out
+		// (the threshold is always reached)
+		g.feat("goroutine-body-ends-in-loop")
+		w("\t}()\n")
+	} else {
+		w("\t\twg.Done()\n\t}()\n")
+	}
+	w("\twg.Wait()\n\tmu.Lock()\n\tr0 := found\n\tr1 := visits\n\tmu.Unlock()\n\treturn r0, r1\n}\n")
 	var feats []string
 	for f := range g.feats {
 		feats = append(feats, f)
